@@ -22,7 +22,13 @@ mkdir -p "$4" && cp "$2" "$3.tmp.$$" && mv "$3.tmp.$$" "$3"
 '''
 DOWN = r'''#!/bin/sh
 # download <relative cache path> <full storage path> <absolute (temp) cache path> <absolute (temp) cache dir>
+# a decision may be a comma separated list: one entry per invocation for the same cache path within one command
+# (the last entry repeats); xvc is expected to run the command once per cache path
+k=$(printf '%%s' "$1" | tr '/' '_')
+c=$(cat "%(faults)s.cnt.$k" 2>/dev/null || echo 0); c=$((c+1)); echo $c > "%(faults)s.cnt.$k"
 d=$(grep -F "$1 " "%(faults)s.down" 2>/dev/null | tail -1 | awk '{print $2}')
+e=$(printf '%%s' "$d" | cut -d, -f$c); [ -z "$e" ] && e=$(printf '%%s' "$d" | awk -F, '{print $NF}')
+d=$e
 case "$d" in
   fc) echo "download fails cleanly by fault pattern" >&2; exit 1;;
   fp) mkdir -p "$4"; printf 'PAR' > "$3"; echo "download fails after a partial write by fault pattern" >&2; exit 1;;
@@ -82,11 +88,17 @@ class Scenario:
         """decisions: path -> decision; written per relative cache path of the path's current record"""
         if not self.faults_enabled:
             return
+        for fn in os.listdir(os.path.dirname(self.faultfile)):
+            if fn.startswith(os.path.basename(self.faultfile) + '.cnt.'):
+                os.unlink(os.path.join(os.path.dirname(self.faultfile), fn))
         with open(self.faultfile + '.' + which, 'w') as f:
             for p, d in decisions.items():
                 r = obs.recs.get(p)
                 if r and r['cur']:
-                    f.write(f"{rc.rec_addr(r, p)} {d}\n")
+                    # F20: a second invocation for the same cache path (duplicates) must not happen; if it does it fails
+                    # after a partial write, which the first, successful invocation would mask
+                    dd = f'{d},fp' if which == 'down' and d == 'ok' else d
+                    f.write(f"{rc.rec_addr(r, p)} {dd}\n")
 
     def storage_abs(self, sdir, guids):
         items = []
